@@ -342,8 +342,9 @@ def applicable_case(draw, tier="quick"):
 
 
 @st.composite
-def form_case(draw, tier="quick", forms=None):
+def form_case(draw, tier="quick", forms=None, with_zeros=False):
     cls, sdesc = draw(applicable_case(tier))
+    zeros = draw(st.booleans()) if with_zeros else False
     form = draw(
         st.sampled_from(forms or ["plain", "plain", "reverse", "reverse", "reverse", "equiv", "equiv-reverse", "path", "path"])
     )
@@ -365,4 +366,7 @@ def form_case(draw, tier="quick", forms=None):
                     cls[2] = sorted(a for a in alphabet if a != keep)
                 cls[6] = 1
                 sdesc = draw(gen.expand_desc())
-    return {"class": cls, "strategy": sdesc, "form": f}
+    case = {"class": cls, "strategy": sdesc, "form": f}
+    if with_zeros:
+        case["zeros"] = zeros
+    return case
